@@ -105,6 +105,8 @@ def main():
         return job, explore(binary, bodies, level, k, s, ns, remaining)
     totals = dict(schedules=0, transitions=0, distinct=0, loads=0, stores=0, globals=0, replay_checks=0)
     per_task = {}
+    harness_msgs = []
+    global_state_seen = False
     with ThreadPoolExecutor(max_workers=NPROC) as ex:
         for job, (rc, out, err, progress) in ex.map(do, jobs):
             bodies, level, k, s, ns = job
@@ -112,9 +114,10 @@ def main():
             m = re.search(r"RESULT .*", out)
             for v in re.findall(r"VIOL key=(\S+) :: (.*)", out):
                 if v[0].startswith("harness:"):
-                    run.status3 = True
-                    print("HARNESS-NONDETERMINISM property=%s %s %s" % (prop, v[0], v[1]))
+                    harness_msgs.append(v)
                     continue
+                if v[0].startswith("concurrency:unsynchronised-shared-access:global"):
+                    global_state_seen = True
                 run.fail(v[0], v[1], v[1].split(" :: ")[0])
             if rc not in (0, 1, 3) or not m:
                 run.fail(fatal_key(err, rc), "explorer process died (exit %d) while executing schedule %s: %s" % (rc, progress, err[:1500]), progress)
@@ -137,6 +140,17 @@ def main():
             run.cov["function_entry_guards_in_library_named_functions"] = int(kv["func_guards"])
             if kv["capped"] == "1":
                 run.exhaustive = False
+    # A schedule that does not replay identically is a defect of the harness - unless the confinement monitor saw library code
+    # write process-global state in the same run: then executions differ because of what earlier executions left in that state,
+    # which is the property failing (results depend on more than the instance), not the harness.
+    for v in harness_msgs:
+        if global_state_seen:
+            run.fail("concurrency:execution-depends-on-process-global-library-state",
+                     "re-executing the same schedule in the same process gave another result (%s) and library code writes process-global state: %s" % (v[0], v[1]),
+                     v[1].split(" :: ")[0])
+        else:
+            run.status3 = True
+            print("HARNESS-NONDETERMINISM property=%s %s %s" % (prop, v[0], v[1]))
     for name, t in per_task.items():
         run.rounds.append({"round": name, "completed": not t["capped"], "schedules": t["schedules"], "transitions": t["transitions"], "max_points_in_one_schedule": t["max_points"],
                            "shards": t["shards"]})
